@@ -6,7 +6,9 @@
    meanings of Spec/TextOpsSpec.v, whose own meaning is given by the C07_match_indices_*,
    C07_split_*, C07_trim_meaning and C07_segments_* theorems. *)
 From Coq Require Import NArith.
-From Stam Require Import Base.Tac Model.Offset Model.Utf8 Model.TextOps Spec.TextOpsSpec Proofs.TextOps.
+From Coq Require Import Permutation.
+From Stam Require Import Base.Tac Model.Offset Model.Utf8 Model.TextOps Spec.TextOpsSpec Proofs.TextOps
+  Proofs.TextOpsMerge Proofs.TextOpsRegex.
 
 Definition find_ok (find_b : text -> text -> option nat) : Prop :=
   forall hay nd, find_b hay nd = option_map (bytepos hay) (first_occ nd hay).
@@ -105,6 +107,39 @@ Theorem C07_regex_offsets : forall t sb se g ps pe, sb <= se -> se <= length t -
   /\ char_index (sub t sb se) (fst g) = Some ps /\ char_index (sub t sb se) (snd g) = Some pe.
 Proof. exact regex_offsets. Qed.
 
+(* the merge of the matches of several expressions (FindRegexIter::next with its buffers), for any
+   begin/end measure: all matches in stable order by begin; without allow_overlap minus those that
+   begin inside an earlier result.  Per expression the matches must come in order, each later one
+   beginning after the begin and not before the end of an earlier one (what the regex crate yields) *)
+Theorem C07_regex_merge : forall (X : Type) (kb ke : X -> nat) fuel allow (ss : list (list X)),
+  length (tag_from 0 ss) < fuel -> Forall (okstream kb ke) ss ->
+  regex_merge kb ke fuel allow ss = merge_spec kb ke allow ss.
+Proof. exact @merge_spec_eq. Qed.
+
+Theorem C07_merge_allow_meaning : forall (X : Type) (kb ke : X -> nat) (ss : list (list X)),
+  Forall (incr kb) ss ->
+  Permutation (merge_spec kb ke true ss) (tag_from 0 ss)
+  /\ StronglySorted (klt kb) (merge_spec kb ke true ss).
+Proof. exact @merge_spec_allow_meaning. Qed.
+
+Theorem C07_merge_nooverlap_meaning : forall (X : Type) (kb ke : X -> nat) (ss : list (list X)),
+  separated kb ke 0 (merge_spec kb ke false ss)
+  /\ (forall x, In x (merge_spec kb ke false ss) -> In x (tag_from 0 ss))
+  /\ (forall x, In x (tag_from 0 ss) -> ~ In x (merge_spec kb ke false ss) ->
+      exists y, In y (merge_spec kb ke false ss) /\ kb (snd x) < ke (snd y)).
+Proof. exact @merge_spec_nooverlap_meaning. Qed.
+
+(* find_text_regex as a whole, any number of expressions with or without capture groups, on a
+   resource or a sub-selection: with the engine's matches on the plain slice as oracle input
+   (oracle_ok: groups on character boundaries inside the whole match, matches of one expression in
+   order) it returns exactly regex_spec: never panics, expression indices, capture group numbers,
+   absolute positions, order and overlap rule *)
+Theorem C07_find_text_regex : forall t es allow sb se, sb <= se -> se <= length t ->
+  oracle_ok (sub t sb se) es ->
+  exists l, regex_spec (sub t sb se) sb es allow = Some l
+            /\ find_text_regex t es allow sb se = (l, Done).
+Proof. exact find_text_regex_spec. Qed.
+
 (* ---- segmentation ---- *)
 Theorem C07_segmentation : forall interval t known,
   segmentation interval t known = segments_spec known 0 (length t).
@@ -149,5 +184,19 @@ Example C07_nonvacuous :
   /\ segmentation_in_range 3 t [(0, 5); (6, 7)] 3 9 = [(3, 5); (5, 6); (6, 7); (7, 9)]
   /\ find_text_sequence find_b_ref (fun x => x) (fun c => (c =? 44)%N) t [[99; 100]; [233]]%N 3 9
      = OOk (Some [(3, 5); (6, 7)])
-  /\ conv_group t 3 (3, 9) = OOk (6, 8).
-Proof. cbv zeta. repeat split. Qed.
+  /\ conv_group t 3 (3, 9) = OOk (6, 8)
+  /\ find_text_regex [97; 97; 97; 97]%N
+       [(false, [[Some (0, 4)]]); (false, [[Some (0, 1)]; [Some (1, 2)]; [Some (2, 3)]; [Some (3, 4)]])] false 0 4
+     = ([(0, ([], [(0, 4)]))], Done)
+  /\ oracle_ok [97; 97; 97; 97]%N
+       [(false, [[Some (0, 4)]]); (false, [[Some (0, 1)]; [Some (1, 2)]; [Some (2, 3)]; [Some (3, 4)]])].
+Proof.
+  cbv zeta.
+  assert (M : forall a b, a <= b -> b <= 4 -> match_ok [97; 97; 97; 97]%N [Some (a, b)]).
+  { intros a b H1 H2. exists (a, b), [], a, b. split; [reflexivity|]. split; [|constructor].
+    repeat split; [assumption|cbn; assumption|].
+    do 5 (try destruct a as [|a]); do 5 (try destruct b as [|b]); try lia; reflexivity. }
+  repeat split.
+  repeat constructor; cbn; try lia; try (apply M; lia).
+  all: repeat (destruct H as [<-|H]; [cbn; lia|]); contradiction.
+Qed.
